@@ -34,7 +34,12 @@ func (g *gen) path(d int, allowPred bool) *xp.Path {
 				st.Prefix = "p"
 			}
 			if allowPred && d > 0 && g.pick(3, "pred") == 0 {
-				st.Preds = append(st.Preds, xp.Pred{Key: []string{"k", "name", "id"}[g.pick(3, "key")], Val: g.expr(d-1, false)})
+				if g.pick(3, "freepred") == 0 {
+					// any expression as the predicate: the operators stand directly inside the brackets
+					st.Preds = append(st.Preds, xp.Pred{Val: xp.Bin([]string{"and", "or", "and", "=", "<", "+"}[g.pick(6, "predop")], g.expr(d-1, false), g.expr(d-1, false))})
+				} else {
+					st.Preds = append(st.Preds, xp.Pred{Key: []string{"k", "name", "id"}[g.pick(3, "key")], Val: g.expr(d-1, false)})
+				}
 			}
 			p.Steps = append(p.Steps, st)
 		}
